@@ -48,10 +48,12 @@ Definition dead (A : arena acont) (t u : ctree) : Prop :=
   forall j, In j (idxs t) -> ~ In j (idxs u) -> aget A j = None.
 Definition FLP (t u r : ctree) (es : list (nat * nat)) : Prop :=
   forall A par, wfn A par u -> dead A t u ->
-    exists A', ae_final es A = Some A' /\ wfn A' par r /\ (forall j, ~ In j (idxs t) -> aget A' j = aget A j).
+    exists A', ae_final es A = Some A' /\ wfn A' par r /\
+      (forall j, ~ In j (idxs u) -> aget A' j = aget A j) /\
+      (forall j, In j (idxs u) -> ~ In j (idxs r) -> aget A' j = None).
 
 Lemma FLP_triv t u : FLP t u u [].
-Proof. intros A par Hw _. exists A. auto. Qed.
+Proof. intros A par Hw _. exists A. split; [reflexivity|]. split; [exact Hw|]. split; [auto|]. intros j Hj Hn. contradiction. Qed.
 
 Lemma sub_in u t j : sub_idx u t -> In j (idxs u) -> In j (idxs t).
 Proof. intros [H _]. apply H. Qed.
@@ -112,12 +114,14 @@ Proof.
     { (* only child 0 *)
       inversion H; subst u r k' es. clear H. intros A par Hw Hd. cbn [wfn] in Hw. destruct Hw as [Hc [Hlf [W0 _]]].
       destruct K0 as [[F0 _]|[_ [-> [-> [Hex _]]]]].
-      - destruct (F0 A (Some i) W0) as [A1 [Hf [W1 Fr]]].
+      - destruct (F0 A (Some i) W0) as [A1 [Hf [W1 [Fr Gn]]]].
         { intros j Hj Hnj. apply Hd; [apply in_cn; auto|]. rewrite in_cn. intros [->|[C|[]]]; contradiction. }
-        exists A1. split; [exact Hf|]. split.
-        + cbn [wfn]. rewrite Fr by exact Hi0. rewrite X0. wfin.
+        exists A1. split; [exact Hf|]. split; [|split].
+        + cbn [wfn]. rewrite Fr by exact Hiu0. rewrite X0. wfin.
         + intros j Hj. apply Fr. intros C. apply Hj. apply in_cn; auto.
-      - exists A. split; [|split; [cbn [wfn]; wfin | auto]].
+        + intros j Hj Hnj. rewrite in_cn in Hj. rewrite in_cn in Hnj. destruct Hj as [->|[Hj|[]]]; [exfalso; apply Hnj; auto|].
+          apply Gn; [exact Hj | intros C; apply Hnj; auto].
+      - exists A. split; [|split; [cbn [wfn]; wfin | split; [auto | intros j Hj Hn; contradiction]]].
         eapply final_skip_one; [exact Hc|]. apply count_le1_l. }
     set (c1 := CN j1 l1 p1 s1' a1 b1) in *.
     destruct (visit o tol st (q ++ [row1 p]) (row1 p) c1 k2) as [[[s1 k3] fr1] skip1] eqn:Ev1.
@@ -138,38 +142,41 @@ Proof.
                - right. eexists. split; [exact Hc|]. apply count_le1_r.
                - left. apply Hd; [apply in_cn; auto|]. rewrite in_cn. intros [->|[[]|C]]; [contradiction|].
                  exact (D01 n Hn0 (Hu1c n C)). }
-           destruct (F1 A (Some i) W1) as [A2 [Hf [W2 Fr]]].
+           destruct (F1 A (Some i) W1) as [A2 [Hf [W2 [Fr Gn]]]].
            { intros j Hj Hnj. apply Hd; [apply in_cn; auto|]. rewrite in_cn. intros [->|[[]|C]]; contradiction. }
-           exists A2. split; [exact Hf|]. split.
-           ++ cbn [wfn]. rewrite Fr by exact Hi1. rewrite X1. wfin.
+           assert (Hiu1 : ~ In i (idxs u1)) by (intros C; apply Hi1; auto).
+           exists A2. split; [exact Hf|]. split; [|split].
+           ++ cbn [wfn]. rewrite Fr by exact Hiu1. rewrite X1. wfin.
            ++ intros j Hj. apply Fr. intros C. apply Hj. apply in_cn; auto.
+           ++ intros j Hj Hnj. rewrite in_cn in Hj. rewrite in_cn in Hnj. destruct Hj as [->|[[]|Hj]]; [exfalso; apply Hnj; auto|].
+              apply Gn; [exact Hj | intros C; apply Hnj; auto].
         -- rewrite (final_noop e0 A).
            2:{ intros l n Hn. left. destruct (EN0 l n Hn) as [->|Hn0].
                - apply Hd; [apply in_cn; auto|]. intros C. apply Hi1. apply Hu1c. exact C.
                - apply Hd; [apply in_cn; auto|]. intros C. exact (D01 n Hn0 (Hu1c n C)). }
-           destruct (F1 A par Hw) as [A2 [Hf [W2 Fr]]].
+           destruct (F1 A par Hw) as [A2 [Hf [W2 [Fr Gn]]]].
            { intros j Hj Hnj. apply Hd; [apply in_cn; auto | exact Hnj]. }
-           exists A2. split; [exact Hf|]. split; [exact W2|].
-           intros j Hj. apply Fr. intros C. apply Hj. apply in_cn; auto.
+           exists A2. split; [exact Hf|]. split; [exact W2|]. split; [exact Fr | exact Gn].
       * (* c1 is infeasible, child 0 moves up *)
         rewrite andb_false_r, orb_false_r in Efb. apply andb_true_iff in Efb as [Ef0 Ei1].
         destruct K0 as [[F0 _]|[_ [_ [_ [_ Hinf]]]]]; [|rewrite (feas_not_infeas _ Ef0) in Hinf; discriminate].
         rewrite Ei1 in H. cbn [andb] in H.
         destruct isroot; inversion H; subst u r k' es; clear H; intros A par Hw Hd; rewrite final_app.
         -- cbn [wfn] in Hw. destruct Hw as [Hc [Hlf [W0 _]]].
-           destruct (F0 A (Some i) W0) as [A1 [Hf [W1 Fr]]].
+           destruct (F0 A (Some i) W0) as [A1 [Hf [W1 [Fr Gn]]]].
            { intros j Hj Hnj. apply Hd; [apply in_cn; auto|]. rewrite in_cn. intros [->|[C|[]]]; contradiction. }
-           rewrite Hf. assert (Hc1 : aget A1 i = Some (ae_cell p st par [cidx u0; cidx CU] false)) by (rewrite Fr by exact Hi0; exact Hc).
+           rewrite Hf. assert (Hc1 : aget A1 i = Some (ae_cell p st par [cidx u0; cidx CU] false)) by (rewrite Fr by exact Hiu0; exact Hc).
            rewrite (final_skip_one _ _ _ _ Hc1) by apply count_le1_l.
-           exists A1. split; [reflexivity|]. split.
+           exists A1. split; [reflexivity|]. split; [|split].
            ++ cbn [wfn]. rewrite Hc1, X0. wfin.
            ++ intros j Hj. apply Fr. intros C. apply Hj. apply in_cn; auto.
-        -- destruct (F0 A par Hw) as [A1 [Hf [W1 Fr]]].
+           ++ intros j Hj Hnj. rewrite in_cn in Hj. rewrite in_cn in Hnj. destruct Hj as [->|[Hj|[]]]; [exfalso; apply Hnj; auto|].
+              apply Gn; [exact Hj | intros C; apply Hnj; auto].
+        -- destruct (F0 A par Hw) as [A1 [Hf [W1 [Fr Gn]]]].
            { intros j Hj Hnj. apply Hd; [apply in_cn; auto | exact Hnj]. }
            rewrite Hf. rewrite final_skip_none.
-           2:{ rewrite Fr by exact Hi0. apply Hd; [apply in_cn; auto | exact Hiu0]. }
-           exists A1. split; [reflexivity|]. split; [exact W1|].
-           intros j Hj. apply Fr. intros C. apply Hj. apply in_cn; auto.
+           2:{ rewrite Fr by exact Hiu0. apply Hd; [apply in_cn; auto | exact Hiu0]. }
+           exists A1. split; [reflexivity|]. split; [exact W1|]. split; [exact Fr | exact Gn].
     + (* no forwarding at i *)
       assert (K1 : forall u1 r1 k4 e1',
                (if skip1 then (set_st s1 c1, set_st s1 c1, k3, []) else elim2 o tol false (q ++ [row1 p]) s1 c1 k3) = (u1, r1, k4, e1') ->
@@ -196,22 +203,27 @@ Proof.
       (* step 1: the entries of child 0 *)
       assert (S1 : exists A1, ae_final e0 A = Some A1 /\
                    aget A1 i = Some (ae_cell p st par [cidx slot0; cidx u1] false) /\ wfn A1 (Some i) slot0 /\
-                   (forall j, ~ In j (idxs c0) -> j <> i -> aget A1 j = aget A j)).
+                   (forall j, ~ In j (idxs u0) -> j <> i -> aget A1 j = aget A j) /\
+                   (forall j, In j (idxs u0) -> ~ In j (idxs slot0) -> aget A1 j = None)).
       { destruct K0 as [[F0 M0]|[Hf0 [-> [-> [Hex Hinf]]]]].
-        - destruct (F0 A (Some i) W0) as [A1 [Hf [W1' Fr]]].
+        - destruct (F0 A (Some i) W0) as [A1 [Hf [W1' [Fr Gn]]]].
           { intros j Hj Hnj. apply Hd; [apply in_cn; auto|]. rewrite in_cn. intros [->|[C|C]]; try contradiction.
             exact (D01 j Hj (Hu1c j C)). }
-          exists A1. split; [exact Hf|]. unfold slot0. rewrite M0. cbn [andb]. split; [|split].
-          + rewrite Fr by exact Hi0. rewrite X0. exact Hc.
+          exists A1. split; [exact Hf|]. unfold slot0. rewrite M0. cbn [andb]. split; [|split; [|split]].
+          + rewrite Fr by exact Hiu0. rewrite X0. exact Hc.
           + exact W1'.
           + intros j Hj _. apply Fr. exact Hj.
+          + exact Gn.
         - destruct (proj1 (cidx_exists u0) Hex) as [ju0 Hju0]. rewrite Hju0, Hju1 in Hc.
           destruct (final_remove A i 0%nat p st par ju0 ju1 u0 ju0 Hc eq_refl Hju0 W0 Nu0 Hiu0) as [A1 [Hf [Hc1 [Hg Ho]]]].
-          exists A1. split; [exact Hf|]. unfold slot0, m0. rewrite Hf0, Hinf, Hex. cbn [andb cidx]. split; [|split].
+          exists A1. split; [exact Hf|]. unfold slot0, m0. rewrite Hf0, Hinf, Hex. cbn [andb cidx]. split; [|split; [|split]].
           + rewrite Hju1. exact Hc1.
           + exact I.
-          + intros j Hj Hji. apply Ho; [intros C; apply Hj; apply Hu0c; exact C | exact Hji]. }
-      destruct S1 as [A1 [Hf1 [Hc1 [Ws0 Fr1]]]].
+          + intros j Hj Hji. apply Ho; [exact Hj | exact Hji].
+          + intros j Hj _. apply Hg. exact Hj. }
+      destruct S1 as [A1 [Hf1 [Hc1 [Ws0 [Fr1' Gn1]]]]].
+      assert (Fr1 : forall j, ~ In j (idxs c0) -> j <> i -> aget A1 j = aget A j).
+      { intros j Hj Hji. apply Fr1'; [intros C; apply Hj; apply Hu0c; exact C | exact Hji]. }
       assert (Hs0c : forall j, In j (idxs slot0) -> In j (idxs c0)).
       { intros j. unfold slot0. destruct (m0 && c_exists r0); [intros [] | apply Hr0c]. }
       assert (W1a : wfn A1 (Some i) u1).
@@ -221,31 +233,39 @@ Proof.
       (* step 2: the entries of child 1 *)
       assert (S2 : exists A2, ae_final ((if m1 then [(1%nat, i)] else []) ++ e1') A1 = Some A2 /\
                    aget A2 i = Some (ae_cell p st par [cidx slot0; cidx slot1] false) /\ wfn A2 (Some i) slot1 /\
-                   (forall j, ~ In j (idxs c1) -> j <> i -> aget A2 j = aget A1 j)).
+                   (forall j, ~ In j (idxs u1) -> j <> i -> aget A2 j = aget A1 j) /\
+                   (forall j, In j (idxs u1) -> ~ In j (idxs slot1) -> aget A2 j = None)).
       { destruct KK1 as [[F1 M1]|[M1 [-> ->]]].
         - unfold slot1. rewrite M1. cbn [andb app].
-          destruct (F1 A1 (Some i) W1a) as [A2 [Hf [W2 Fr]]].
+          destruct (F1 A1 (Some i) W1a) as [A2 [Hf [W2 [Fr Gn]]]].
           { intros j Hj Hnj. rewrite Fr1; [|intros C; exact (D01 j C Hj) | intros ->; contradiction].
             apply Hd; [apply in_cn; auto|]. rewrite in_cn. intros [->|[C|C]]; try contradiction.
             exact (D01 j (Hu0c j C) Hj). }
-          exists A2. split; [exact Hf|]. split; [|split].
-          + rewrite Fr by exact Hi1. rewrite X1. exact Hc1.
+          exists A2. split; [exact Hf|]. split; [|split; [|split]].
+          + rewrite Fr by exact Hiu1. rewrite X1. exact Hc1.
           + exact W2.
           + intros j Hj _. apply Fr. exact Hj.
+          + exact Gn.
         - unfold slot1. rewrite M1. cbn [andb app].
           destruct (c_exists slot0) eqn:Es0.
           + destruct (proj1 (cidx_exists slot0) Es0) as [js0 Hjs0]. rewrite Hjs0, Hju1 in Hc1.
             destruct (final_remove A1 i 1%nat p st par js0 ju1 u1 ju1 Hc1 eq_refl Hju1 W1a Nu1 Hiu1) as [A2 [Hf [Hc2 [Hg Ho]]]].
-            exists A2. split; [exact Hf|]. split; [|split].
+            exists A2. split; [exact Hf|]. split; [|split; [|split]].
             * rewrite Hjs0. exact Hc2.
             * exact I.
-            * intros j Hj Hji. apply Ho; [intros C; apply Hj; apply Hu1c; exact C | exact Hji].
-          + exists A1. split; [|split; [exact Hc1 | split; [exact W1a | auto]]].
+            * intros j Hj Hji. apply Ho; [exact Hj | exact Hji].
+            * intros j Hj _. apply Hg. exact Hj.
+          + exists A1. split; [|split; [exact Hc1 | split; [exact W1a | split; [auto | intros j Hj Hn; contradiction]]]].
             eapply final_skip_one; [exact Hc1|]. destruct slot0; [apply count_le1_r | discriminate]. }
-      destruct S2 as [A2 [Hf2 [Hc2 [Ws1 Fr2]]]].
-      exists A2. split; [|split].
+      destruct S2 as [A2 [Hf2 [Hc2 [Ws1 [Fr2' Gn2]]]]].
+      assert (Fr2 : forall j, ~ In j (idxs c1) -> j <> i -> aget A2 j = aget A1 j).
+      { intros j Hj Hji. apply Fr2'; [intros C; apply Hj; apply Hu1c; exact C | exact Hji]. }
+      exists A2. split; [|split; [|split]].
       * rewrite final_app, Hf1. exact Hf2.
       * cbn [wfn]. split; [exact Hc2|]. split; [intros C; discriminate|]. split; [|exact Ws1].
         eapply wfn_frame; [|exact Ws0]. intros j Hj. apply Fr2; [intros C; exact (D01 j (Hs0c j Hj) C) | intros ->; apply Hi0; apply Hs0c; exact Hj].
-      * intros j Hj. rewrite in_cn in Hj. rewrite Fr2, Fr1; auto.
+      * intros j Hj. rewrite in_cn in Hj. rewrite Fr2', Fr1'; auto.
+      * intros j Hj Hnj. rewrite in_cn in Hj. rewrite in_cn in Hnj. destruct Hj as [->|[Hj|Hj]]; [exfalso; apply Hnj; auto| |].
+        -- rewrite Fr2'; [apply Gn1; [exact Hj | intros C; apply Hnj; auto] | intros C; exact (D01 j (Hu0c j Hj) (Hu1c j C)) | intros ->; contradiction].
+        -- apply Gn2; [exact Hj | intros C; apply Hnj; auto].
 Qed.
